@@ -341,6 +341,19 @@ def build_cfg(case, lst, bu):
         if key[1] is not None and follows_code[id(chain[0])]:
             first_empty_at[(key[0], key[1])] = chain[0]
     edge_label = expected_edges.edge_label
+    if case.get("imprecise_returns"):
+        # (C11 only) an input whose return edges are not uniform, as real
+        # disassemblies are: in every function with two or more returns the
+        # first return is only known to return "somewhere"
+        rets = {}
+        for (si, pos), t in sorted(instr_at.items()):
+            if t.kind == "ret" and t.fn is not None:
+                rets.setdefault(t.fn, []).append((si, pos))
+        vague = {v[0] for v in rets.values() if len(v) >= 2}
+        edges = {e for e in edges
+                 if not (e[2] == "return" and (e[0], e[1]) in vague)} | {
+            (si, pos, "return", False, True, ("anon",))
+            for (si, pos) in vague}
     anon = {}
     for (si, pos, et, cond, direct, tgt) in sorted(edges, key=repr):
         src = last_instr_of.get((si, pos))
